@@ -876,7 +876,7 @@ impl Check for C01 {
             return;
         }
         // deep nesting, closed and unclosed (generated from params; input left empty)
-        let depths: &[i64] = if g.tier == Tier::Quick { &[100, 129, 254, 255, 256, 300, 2_000, 20_000, 100_000] } else { &[100, 127, 128, 129, 255, 256, 257, 1_000, 10_000, 100_000, 1_000_000] };
+        let depths: &[i64] = if g.tier == Tier::Quick { &[32, 48, 100, 129, 254, 255, 256, 300, 2_000, 20_000, 100_000] } else { &[32, 48, 100, 127, 128, 129, 255, 256, 257, 1_000, 10_000, 100_000, 1_000_000] };
         let mut idx = 0;
         for kind in 0..6 {
             for d in depths {
